@@ -441,12 +441,20 @@ func aryOf[T any, PT interface {
 	if r.Intn(3) != 0 {
 		n = r.Range(0, 6)
 	}
+	which := r.Intn(8)
+	if r.Intn(400) == 0 && which != 2 && which != 3 {
+		// counts around the sign bit and the maximum of the 16-bit prefixes
+		n = []int{32767, 32768, 40000, 65535}[r.Intn(4)]
+		if which == 4 {
+			n = 32767
+		}
+		coverPrior("Ary.count>=32767")
+	}
 	vals := make([]T, n)
 	refs := make([][]byte, n)
 	for i := range vals {
 		vals[i], refs[i] = gen()
 	}
-	which := r.Intn(8)
 	switch which {
 	case 0:
 		return mkAry[pk.VarInt, T, PT](which, elemKind, vals, refs, eq, junk)
@@ -873,6 +881,86 @@ func checkPacket(c *vm.Ctx, r *vm.Rand) {
 	c.Cover("packet.compose")
 }
 
+// checkBitSets: what the two bit-set types mean on the wire. A fixed bit set of n bits is ceil(n/8) bytes with bit i
+// in byte i/8 under mask 1<<(i%8); a bit set is a VarInt count of big-endian longs with bit i in long i/64 under mask
+// 1<<(i%64) (java.util.BitSet.toLongArray). The values are built through Set and judged on the bytes.
+func checkBitSets(c *vm.Ctx, r *vm.Rand) {
+	n := r.Range(0, 200)
+	if r.Intn(4) == 0 {
+		n = []int{0, 1, 7, 8, 9, 63, 64, 65, 127, 128, 129}[r.Intn(11)]
+	}
+	var bitsOn []int
+	for i := 0; i < n; i++ {
+		if r.Intn(3) == 0 {
+			bitsOn = append(bitsOn, i)
+		}
+	}
+	if n > 0 && r.Bool() {
+		bitsOn = append(bitsOn, n-1)
+	}
+	wit := func() any { return map[string]any{"bits": n, "set": bitsOn} }
+	c.Eval(vm.HashStr("bitsets", fmt.Sprint(n, bitsOn)), n > 8)
+	c.Guard("bitsets", wit, func() {
+		f := pk.NewFixedBitSet(int64(n))
+		if len(f) != (n+7)/8 {
+			c.Violation("bitset/fixed-length", fmt.Sprintf("NewFixedBitSet(%d) has %d bytes, the protocol's layout has %d", n, len(f), (n+7)/8), wit())
+			return
+		}
+		want := make([]byte, (n+7)/8)
+		longs := make([]uint64, (n+63)/64)
+		b := make(pk.BitSet, (n+63)/64)
+		for _, i := range bitsOn {
+			f.Set(i, true)
+			b.Set(i, true)
+			want[i/8] |= 1 << uint(i%8)
+			longs[i/64] |= 1 << uint(i%64)
+		}
+		// clear one again
+		if len(bitsOn) > 1 {
+			i := bitsOn[0]
+			if i != bitsOn[len(bitsOn)-1] {
+				f.Set(i, false)
+				b.Set(i, false)
+				want[i/8] &^= 1 << uint(i%8)
+				longs[i/64] &^= 1 << uint(i%64)
+			}
+		}
+		var buf bytes.Buffer
+		if _, err := f.WriteTo(&buf); err != nil || !bytes.Equal(buf.Bytes(), want) {
+			c.Violation("bitset/fixed-layout", fmt.Sprintf("fixed bit set written as %x, bit i belongs in byte i/8 under 1<<(i%%8): %x (err %v)", buf.Bytes(), want, err), wit())
+			return
+		}
+		wantB := refwire.EncVarInt(int32(len(longs)))
+		for _, l := range longs {
+			wantB = binary.BigEndian.AppendUint64(wantB, l)
+		}
+		buf.Reset()
+		if _, err := b.WriteTo(&buf); err != nil || !bytes.Equal(buf.Bytes(), wantB) {
+			c.Violation("bitset/layout", fmt.Sprintf("bit set written as %x, expected %x (err %v)", buf.Bytes(), wantB, err), wit())
+			return
+		}
+		// reading the reference bytes gives the same bits back through Get
+		f2 := pk.NewFixedBitSet(int64(n))
+		var b2 pk.BitSet
+		if _, err := f2.ReadFrom(bytes.NewReader(want)); err != nil {
+			c.Violation("bitset/fixed-read", err.Error(), wit())
+			return
+		}
+		if _, err := b2.ReadFrom(bytes.NewReader(wantB)); err != nil {
+			c.Violation("bitset/read", err.Error(), wit())
+			return
+		}
+		for i := 0; i < n; i++ {
+			on := want[i/8]&(1<<uint(i%8)) != 0
+			if f2.Get(i) != on || b2.Get(i) != on {
+				c.Violation("bitset/get", fmt.Sprintf("bit %d: fixed Get=%v, bit set Get=%v, the bytes say %v", i, f2.Get(i), b2.Get(i), on), wit())
+				return
+			}
+		}
+		c.Cover("bitset.addressing")
+	})
+}
+
 func run(c *vm.Ctx) {
 	coverPrior = func(s string) { c.Cover("prior." + s) }
 	// reference self-test
@@ -902,5 +990,9 @@ func run(c *vm.Ctx) {
 	pr := c.Rand("packets")
 	for i := 0; i < c.Scale(30000, 600000); i++ {
 		checkPacket(c, pr)
+	}
+	br := c.Rand("bitsets")
+	for i := 0; i < c.Scale(3000, 60000); i++ {
+		checkBitSets(c, br)
 	}
 }
